@@ -613,7 +613,7 @@ def r05_9(ctx):
 
 
 # =============================================================================== C01
-@rule("R01.1", ["C01"], "T-WMC", floor=1)
+@rule("R01.1", ["C01", "C10", "C05"], "T-WMC", floor=1)
 def r01_1(ctx):
     """A send cannot be aborted by cancelling its caller: what send_data awaits is asyncio.shield(...) of a task created
     (create_task / eager task / ensure_future) from the coroutine self._send_data_frame(frame) of the caller's frame - in
@@ -625,9 +625,9 @@ def r01_1(ctx):
     cls = ash_cls(ctx)
     # task creation / shielding are modelled by name (the module's own create_eager_task shim is one way to create a task)
     px = PX(repo, inline=inline_ash(stop=("_send_data_frame", "create_eager_task")),
-            models=[("asyncio.shield", Outcomes(OK(Sym("shielded")))), ("*.create_task", Outcomes(OK(Sym("task")))),
+            models=[("asyncio.shield", Outcomes(OK(Sym("shielded")), RAISE("CancelledError"))), ("*.create_task", Outcomes(OK(Sym("task")))),
                     ("create_eager_task", Outcomes(OK(Sym("task")))), ("asyncio.ensure_future", Outcomes(OK(Sym("task")))),
-                    ("await:*", Outcomes(OK(None)))])
+                    ("await:*", Outcomes(OK(None), RAISE("CancelledError")))])
     paths = px.explore(f, lambda: (self_obj(cls, {}), {"data": Sym("payload")}))
     ctx.anchor(paths, "send_data has a path")
     for p in paths:
@@ -657,6 +657,14 @@ def r01_1(ctx):
                 payload_ok = src is not None and (Sym("payload") in src.args or Sym("payload") in src.kwargs.values())
             if not payload_ok:
                 bad = f"the frame handed to _send_data_frame ({fr_!r}) does not carry the caller's payload"
+        if not bad and any(str(e.extra) == "raises CancelledError" for e in calls):
+            # the caller was cancelled while the send is in flight: the transmission goes on (retry budget, failure report)
+            killed = [e for e in calls if (e.callee or e.what).endswith(".cancel") and "task" in (e.callee or e.what)]
+            if killed:
+                bad = ("when its caller is cancelled send_data cancels the transmission task as well: the frame number is consumed, the retries stop and a "
+                       "silent NCP is never reported")
+            elif p.terminal != "raise":
+                bad = "the caller's cancellation is swallowed"
         ctx.require(not bad, "send_data:shielded-task", f"send_data: {bad}", func=f, trace=p.trace(12))
     # nobody else starts a send
     for g, n in index(repo).references("_send_data_frame"):
